@@ -1,5 +1,6 @@
 import Slock.Model.MsWheel
 import Slock.Gen.Kernels
+import Slock.Proofs.MsReterm
 /-!
 # C06, millisecond unit × update / re-lock
 
@@ -70,5 +71,131 @@ theorem parked_hold_not_before_park_end_partial (t0 T p : Nat) (hp : Ms.parkEnd 
   unfold Ms.parkEnd at hp; exact hp
 
 example : msUnit 0x400 ∧ notUnlimited 0x400 := by decide
+
+/-! ## The same findings, and what IS guaranteed, over the executable re-term model
+
+`Ms.reterm` (Slock/Model/MsWheel.lean) is what the code does with a hold's expiry entry when an update / re-lock gives the hold new terms;
+the harness mode `msupd` diffs it against the real `LockDB.Lock` case by case, its shortcut and its deadline are the regenerated
+`CheckLockedEqual` / `UpdateLockedLock` (`Ms.sameTerms_generated`, `Ms.newDeadline_generated`, `Ms.reterm_ignored_iff_generated`). -/
+
+open Ms in
+/-- the deadline second the hold record carries after the re-term (`none`: nothing was changed) -/
+def deadlineOf : Ms.Reterm → Option Nat
+  | .ignored => none
+  | .secondAt d _ => some d
+  | .reparked d => some d
+  | .staleParked d => some d
+
+/-- finding (a) over the model: an update to millisecond terms with unchanged counts is ignored — wherever the entry is, whatever the clock,
+the hold's deadline and the new value are -/
+theorem reterm_ms_equal_counts_ignored (place : Ms.Place) (now expT val : Nat) :
+    Ms.reterm place true true now expT true val = .ignored := by
+  unfold Ms.reterm Ms.sameTerms; simp
+
+/-- (a), shortened: 400 s to go (entry in the long table), updated to 60 ms, unchanged counts: ignored, the hold keeps its deadline 391 s
+ahead — the statement allows 10 s after a shortening update -/
+theorem reterm_ms_ignored_shortening_violated :
+    ∃ (now expT val : Nat), Ms.reterm .long true true now expT true val = .ignored ∧ expT - now > val / 1000 + 10 :=
+  ⟨1000010, 1000401, 60, by decide, by decide⟩
+
+/-- (a), lengthened: a parked 400 ms hold (deadline second = start + 1) updated to 3200 ms, unchanged counts: ignored, it ends when the
+old 400 ms are over -/
+theorem reterm_ms_ignored_lengthening_violated :
+    ∃ (now expT val : Nat), Ms.reterm .parked true true now expT true val = .ignored ∧ expT - now < val / 1000 :=
+  ⟨1000000, 1000001, 3200, by decide, by decide⟩
+
+/-- finding (b) over the model: a re-lock, or an update that is not "same terms", of a hold whose entry is parked in the millisecond table
+rewrites the record and leaves the entry in its OLD slot — in either unit, for every value -/
+theorem reterm_parked_stale (isUpdate countsEq : Bool) (now expT : Nat) (ms : Bool) (val : Nat)
+    (h : isUpdate = false ∨ Ms.sameTerms now expT ms val countsEq = false) :
+    Ms.reterm .parked isUpdate countsEq now expT ms val = .staleParked (Ms.newDeadline now ms val) := by
+  unfold Ms.reterm
+  rcases h with h | h <;> simp [h]
+
+/-- (b) … and when the OLD park ends the stale entry is fired for every new value below 3000, whatever its unit -/
+theorem reterm_parked_stale_fires_at_old_park_end (now val : Nat) (h : val < Ms.QLEN) : Ms.staleAfterPark now val = .fire :=
+  parked_hold_small_value_fires now val h
+
+/-- (b) concrete, end to end: granted at wall millisecond `t0` (server second `t0 / 1000`) with 400 ms; 50 ms later re-locked with 5 SECONDS:
+the record carries deadline `now + 6`, the entry stays where it is, the old park ends at `t0 + 400` and fires: 350 ms under terms of 5000 ms -/
+theorem reterm_parked_early_violated :
+    ∃ (t0 tu v : Nat),
+      t0 < tu ∧ tu < Ms.parkEnd t0 400 ∧
+      Ms.reterm .parked false true (tu / 1000) (t0 / 1000 + 1) false v = .staleParked (tu / 1000 + v + 1) ∧
+      Ms.staleAfterPark (tu / 1000) v = .fire ∧ Ms.parkEnd t0 400 - tu < v * 1000 :=
+  ⟨1000000000, 1000000050, 5, by decide, by decide, by decide, by decide, by decide⟩
+
+/-- POSITIVE: an entry in the second wheel is never moved and never lost: unless the update is ignored, the record carries the deadline
+`now + E (in seconds) + 1` of the new terms, which the wheel's sweep honours when it reaches the entry -/
+theorem reterm_wheel_deadline (isUpdate countsEq : Bool) (now expT : Nat) (ms : Bool) (val : Nat) :
+    Ms.reterm .wheel isUpdate countsEq now expT ms val = .ignored ∨
+    Ms.reterm .wheel isUpdate countsEq now expT ms val = .secondAt (now + (if ms then val / 1000 else val) + 1) false := by
+  unfold Ms.reterm Ms.newDeadline
+  by_cases h : (isUpdate && Ms.sameTerms now expT ms val countsEq) = true <;> simp [h]
+
+/-- POSITIVE: the same for an entry that went through the millisecond table and was handed over to the second wheel -/
+theorem reterm_handed_deadline (isUpdate countsEq : Bool) (now expT : Nat) (ms : Bool) (val : Nat) :
+    Ms.reterm .handed isUpdate countsEq now expT ms val = .ignored ∨
+    Ms.reterm .handed isUpdate countsEq now expT ms val = .secondAt (now + (if ms then val / 1000 else val) + 1) false := by
+  unfold Ms.reterm Ms.newDeadline
+  by_cases h : (isUpdate && Ms.sameTerms now expT ms val countsEq) = true <;> simp [h]
+
+/-- POSITIVE: an entry in the long table given millisecond terms (re-lock, or update with changed counts) is taken out and parked in the
+millisecond table: the new terms run from the update -/
+theorem reterm_long_ms_reparked (isUpdate countsEq : Bool) (now expT val : Nat) (h : isUpdate = false ∨ countsEq = false) :
+    Ms.reterm .long isUpdate countsEq now expT true val = .reparked (now + val / 1000 + 1) := by
+  unfold Ms.reterm Ms.sameTerms Ms.newDeadline
+  rcases h with h | h <;> simp [h]
+
+/-- POSITIVE: an entry in the long table given second terms that change the deadline is moved to the second wheel under the new deadline;
+with an unchanged deadline it stays where it is -/
+theorem reterm_long_seconds_moved (isUpdate countsEq : Bool) (now expT val : Nat)
+    (h : isUpdate = false ∨ Ms.sameTerms now expT false val countsEq = false) :
+    Ms.reterm .long isUpdate countsEq now expT false val = .secondAt (now + val + 1) (decide (now + val + 1 = expT)) := by
+  unfold Ms.reterm Ms.newDeadline
+  by_cases hd : now + val + 1 = expT <;> rcases h with h | h <;> simp [h, hd]
+
+/-- POSITIVE: a re-lock is never ignored -/
+theorem reterm_relock_never_ignored (place : Ms.Place) (countsEq : Bool) (now expT : Nat) (ms : Bool) (val : Nat) :
+    Ms.reterm place false countsEq now expT ms val ≠ .ignored := by
+  intro h
+  have := (Ms.reterm_ignored_iff_generated place false countsEq now expT ms val).mp h
+  simp at this
+
+/-- POSITIVE, all places: whenever the update / re-lock is not ignored, the hold record carries the deadline of the NEW terms counted from
+the second of the update — `UpdateLockedLock`'s (tied by `Ms.newDeadline_generated`). What differs between the places is only where the ENTRY is. -/
+theorem reterm_not_ignored_deadline (place : Ms.Place) (isUpdate countsEq : Bool) (now expT : Nat) (ms : Bool) (val : Nat) :
+    Ms.reterm place isUpdate countsEq now expT ms val = .ignored ∨
+    deadlineOf (Ms.reterm place isUpdate countsEq now expT ms val) = some (Ms.newDeadline now ms val) := by
+  unfold Ms.reterm
+  by_cases h : (isUpdate && Ms.sameTerms now expT ms val countsEq) = true
+  · left; simp [h]
+  · right
+    simp only [h]
+    cases place
+    · rfl
+    · cases ms
+      · by_cases hd : Ms.newDeadline now false val = expT <;> simp [hd, deadlineOf]
+      · rfl
+    · rfl
+    · rfl
+
+-- non-vacuity: each statement above has instances on both sides of its hypothesis / disjunction
+example : Ms.reterm .wheel true true 1001 1007 true 60 = .ignored := by decide
+example : Ms.reterm .long true true 1010 1401 true 30000 = .ignored := by decide
+example : Ms.reterm .parked false true 1000 1001 true 3200 = .staleParked 1004 ∧ Ms.staleAfterPark 1000 3200 = .second 1004 := by decide
+example : Ms.reterm .parked true false 1000 1001 false 300 = .staleParked 1301 ∧ Ms.staleAfterPark 1000 300 = .fire := by decide
+example : Ms.sameTerms 1000 1001 false 5 true = false := by decide
+example : Ms.reterm .wheel true true 1001 1007 false 5 = .ignored := by decide          -- second terms, deadline within 1 s: the allowed shortcut
+example : Ms.reterm .wheel true true 1001 1007 false 2 = .secondAt 1004 false := by decide
+example : Ms.reterm .wheel false true 1001 1007 true 3200 = .secondAt 1005 false := by decide
+example : Ms.reterm .handed true false 1001 1007 true 30000 = .secondAt 1032 false := by decide
+example : Ms.reterm .handed true true 1001 1007 false 6 = .ignored := by decide
+example : Ms.reterm .long false true 1010 1401 true 60 = .reparked 1011 := by decide
+example : Ms.reterm .long true false 1010 1401 true 3200 = .reparked 1014 := by decide
+example : Ms.reterm .long false true 1010 1401 false 300 = .secondAt 1311 false := by decide
+example : Ms.reterm .long false true 1010 1401 false 390 = .secondAt 1401 true := by decide
+example : Ms.sameTerms 1010 1401 false 300 true = false := by decide
+example : deadlineOf (Ms.reterm .parked false true 1000 1001 false 5) = some (Ms.newDeadline 1000 false 5) := by decide
 
 end Slock.C06MsUpdate
